@@ -8,8 +8,10 @@ position the real graph is observed completely (`get` over all ordered pairs, `g
 rebuilt with `from_edgelist`) and compared with the model; the laws of the statement
 (T(a,a)=I, T(a,c)=T(a,b).T(b,c), T(a,b)=T(b,a)^-1) are checked on the real answers alone.
 
-* enumerated part: every history of length <= 3 over a fixed alphabet of 23 operations
-  (mutators and explicit queries).  The full observation runs on the real object after the
+* enumerated part: every history of length <= 3 over a fixed alphabet of 27 operations
+  (mutators and explicit queries); a second alphabet (`load_alphabet`) whose histories load
+  edge lists INTO THE GRAPH AS IT IS - populated, queried, caches warm - with `from_edgelist` /
+  `load` (a batch of updates: changed matrices, changed parents, restore of a saved state).  The full observation runs on the real object after the
   last operation; earlier positions are the last position of the (also enumerated) prefixes.
 * sampled part: random histories (length 4..8 quick, 4..12 thorough) over <= 6 frame names;
   after every operation the full observation runs on a `copy.deepcopy` of the real graph
@@ -40,8 +42,10 @@ LEVEL = "exploration"
 RULE = (
     "histories of SceneGraph operations (update by matrix / quaternion / axis+angle / translation / "
     "combinations / geometry only, re-parent, transforms.remove_node, remove_geometries, base-frame "
-    "change, __setitem__, clear, copy, explicit queries incl. queries for absent frames) over <= 6 "
-    "frame names; every history of length <= 3 over a 23-operation alphabet is enumerated, longer ones "
+    "change, __setitem__, clear, copy, from_edgelist / load of an edge list into the existing and already "
+    "queried graph, snapshot + restore, explicit queries incl. queries for absent frames) over <= 6 "
+    "frame names; every history of length <= 3 over a 27-operation alphabet and over a 10-operation "
+    "edge-list-loading alphabet (also from three initial forests, caches warm or cold) is enumerated, longer ones "
     "(to 8 quick / 12 thorough) are sampled; a full observation (all ordered pairs, listings, edge-list "
     "rebuild) follows every operation. A case is one history; distinct = distinct operation sequence "
     "(names, kwargs kinds and matrix classes); non-trivial = at least one operation changed the "
@@ -75,6 +79,8 @@ ASSUMPTIONS = [
     "update() keyword rules as documented in kwargs_to_matrix: matrix wins; translation adds to a "
     "quaternion or axis+angle rotation; no transform keyword on a NEW edge denotes identity",
     "remove_node(u) deletes u and its incident edges; children of u become roots",
+    "from_edgelist(edges) / load(edges) on an existing graph mean update(child, parent, **attr) for every "
+    "edge in order ('load transform data from an edge list into the current scene graph')",
     "an exception of type ValueError/KeyError is the accepted way to refuse a disconnected pair",
 ]
 EXHAUSTIVE = {"quick": False, "thorough": False}
@@ -344,6 +350,7 @@ class State:
         self.changed = 0  # operations that changed the reference forest
         self.query_before_mutation = False
         self._queried = False
+        self.snap = None  # edge list recorded by the last `snapshot` operation (built from the model)
 
 
 def op_class(st, op):
@@ -481,12 +488,64 @@ def apply(run, st, op, case):
             st.frozen.append((g, m.copy(), set(st.ghost), set(st.geom_removed)))
             st.g = g2
             st.m = m.copy()
+        elif k == "snapshot":
+            # what a caller keeps when it saves the state of the graph as an edge list; taken from
+            # the reference forest (the real export is judged by every sweep), nothing is executed
+            st.snap = model_edgelist(m)
+        elif k in ("load", "restore"):
+            # an edge list loaded INTO THE GRAPH AS IT IS (already populated, already queried, every
+            # cache in whatever state the history left it): one update per edge, in order
+            edges = st.snap if k == "restore" else op["edges"]
+            if not edges:
+                return False
+            trial = m.copy()
+            for u, v, _attr in edges:
+                if u == v or trial.would_cycle(v, u):
+                    return False
+                trial.update(v, u, _I)
+            before = model_signature(m)
+            arrays = bool(op.get("arrays"))
+            mats, sent = [], []
+            for u, v, attr in edges:
+                M = np.array(attr["matrix"], dtype=np.float64).reshape(4, 4)
+                mats.append(M.copy())
+                a = dict(attr)
+                a["matrix"] = np.array(M) if arrays else M.tolist()
+                sent.append([u, v, a] if not op.get("tuples") else (u, v, a))
+            try:
+                if op.get("via") == "load":
+                    g.load(sent)
+                else:
+                    g.from_edgelist(sent)
+            except Exception as e:
+                run.violation("op=%s sym=exception:%s" % (cls, type(e).__name__),
+                              "loading an edge list into an existing graph raised", dict(case, error=repr(e)[:200]))
+                raise _Abort()
+            run.count("edge_lists_loaded_into_existing_graph" if before[1] else "edge_lists_loaded_into_empty_graph")
+            if st._queried:
+                run.count("edge_lists_loaded_after_a_query")
+            if arrays:
+                for e in sent:
+                    try:
+                        e[2]["matrix"] += 0.37  # the caller re-uses its buffers
+                        run.count("caller_buffers_overwritten_after_update")
+                    except ValueError:
+                        run.violation("op=%s sym=caller_array_made_read_only arg=matrix" % cls,
+                                      "an array passed to a scene-graph edit was made read-only by the library",
+                                      dict(case))
+                        break
+            for (u, v, attr), M in zip(edges, mats):
+                m.update(v, u, M, geometry=attr["geometry"] if "geometry" in attr else _NO)
+                if not any(e[1] == v for e in m.former):
+                    st.geom_removed.discard(v)
+            if model_signature(m) != before:
+                st.changed += 1
         elif k in QUERY_OPS:
             st._queried = True
             explicit_query(run, st, op, case)
         else:
             raise KeyError(k)
-        if k not in QUERY_OPS and st._queried and k != "copy":
+        if k not in QUERY_OPS and st._queried and k not in ("copy", "snapshot"):
             st.query_before_mutation = True
         return True
     finally:
@@ -498,6 +557,28 @@ class _Abort(Exception):
 
 
 _BUFFER_KEYS = ("matrix", "quaternion", "axis", "translation")
+
+
+def model_edgelist(m):
+    """The reference forest as an edge list [parent, child, {matrix (nested lists), geometry}]."""
+    out = []
+    for c, p in m.parent.items():
+        attr = {"matrix": np.asarray(m.matrix[c], dtype=np.float64).tolist()}
+        if c in m.geometry:
+            attr["geometry"] = m.geometry[c]
+        out.append([p, c, attr])
+    return out
+
+
+def model_signature(m):
+    """Everything the reference forest holds, comparable (did an operation change it?)."""
+    return (
+        m.base,
+        tuple(m.nodes),
+        tuple(sorted(m.parent.items())),
+        tuple(sorted(m.geometry.items())),
+        tuple((c, np.asarray(M, dtype=np.float64).tobytes()) for c, M in sorted(m.matrix.items())),
+    )
 
 
 def clone_graph(g):
@@ -1026,6 +1107,7 @@ def run_history(run, ops, order, sweep_every, tag, prefix=None):
             case["step"] = -1
             for op in PREFIXES[prefix[0]]():
                 apply(run, st, op, case)
+            st.snap = model_edgelist(st.m)  # "the state as it was saved", for `restore`
             if prefix[1]:
                 bad += sweep(run, st, st.g, st.m, st.ghost, st.geom_removed, order + 2, case, "warm", absent=False)
         for i, op in enumerate(ops):
@@ -1037,7 +1119,7 @@ def run_history(run, ops, order, sweep_every, tag, prefix=None):
             applied += 1
             run.count("op:" + op["op"])
             run.state("forest_shape", st.m.shape())
-            if sweep_every and op["op"] not in QUERY_OPS:
+            if sweep_every and op["op"] not in QUERY_OPS and op["op"] != "snapshot":
                 clone = clone_graph(st.g)
                 bad += sweep(run, st, clone, st.m, set(st.ghost), st.geom_removed, order + i, case, "clone")
                 if bad > 20:
@@ -1065,6 +1147,9 @@ def _jsonable_op(op):
         o["kw"] = _jsonable_kw(o["kw"])
     if "matrix" in o:
         o["matrix"] = np.asarray(o["matrix"]).tolist()
+    if o.get("edges"):
+        o["edges"] = [[e[0], e[1], dict(e[2], matrix=np.asarray(e[2]["matrix"], dtype=np.float64).tolist())]
+                      for e in o["edges"]]
     o.pop("cls", None)
     return o
 
@@ -1085,6 +1170,9 @@ def op_digest(op):
         return (k, op["to"], op.get("from"), op.get("cls") or tuple(sorted(op["kw"])), "geometry" in op["kw"])
     if k == "setitem":
         return (k, op["key"], op.get("cls"))
+    if k in ("load", "restore"):
+        shape = op.get("cls") or tuple((e[0], e[1], "geometry" in e[2]) for e in op.get("edges") or ())
+        return (k, op.get("via") or "from_edgelist", bool(op.get("arrays")), bool(op.get("tuples")), shape)
     return tuple([k] + [repr(op[x]) for x in sorted(op) if x not in ("op", "cls")])
 
 
@@ -1149,6 +1237,52 @@ def _prefix_tree():
 
 PREFIXES = {"chain": _prefix_chain, "tree": _prefix_tree}
 
+
+def _edge(u, v, M, geometry=None):
+    attr = {"matrix": np.asarray(M, dtype=np.float64).tolist()}
+    if geometry is not None:
+        attr["geometry"] = geometry
+    return [u, v, attr]
+
+
+def load_alphabet():
+    """
+    Edge lists loaded into a graph that ALREADY EXISTS and has been queried (restore a saved
+    state, merge a sub-tree, re-read a file into the same scene): `from_edgelist` / `load` are
+    a batch of updates, so every answer given before the load that depends on a loaded edge has
+    to change with it.  The lists change a matrix (E_chain: the chain world-a-b-c with every
+    matrix different), a parent (E_move: b under world, c under a) of what the prefixes and the
+    first three operations build; `restore` loads back the edges the initial forest had when it
+    was complete (`snapshot` operations, used by the sampled histories, record the current edges
+    of the reference forest) - whatever was edited, removed or asked in between.
+    One more update class rides along: the edge world->a set to M1 and then to M1 with the
+    SAME amount added to every entry of its three upper rows (a difference matrix that is
+    constant over all free entries must not be mistaken for 'unchanged').
+    """
+    A = alphabet()
+    M1, M2, M3, M4, M5 = fixed_matrices()
+    shifted = M1.copy()
+    shifted[:3] += 0.5
+    T = np.eye(4)
+    T[:3, 3] = [0.25, -4.0, 1.5]
+    return [
+        A[0],  # world -> a  M1
+        A[1],  # a -> b      q+t
+        A[2],  # b -> c      aa, g1
+        {"op": "update", "to": "a", "from": "world", "kw": {"matrix": shifted}, "cls": "M1_upper_rows_shifted_uniformly"},
+        {"op": "remove_node", "node": "b"},
+        {"op": "get", "to": "c", "from": None},
+        {"op": "get", "to": "a", "from": "c"},
+        {"op": "load", "via": "from_edgelist", "arrays": True, "cls": "E_chain_other_matrices",
+         "edges": [_edge("world", "a", M3), _edge("a", "b", M2), _edge("b", "c", M4, "g1")]},
+        {"op": "load", "via": "load", "tuples": True, "cls": "E_move_b_and_c",
+         "edges": [_edge("world", "b", M5), _edge("a", "c", T, "g3")]},
+        # the state recorded when the initial forest was complete (run_history takes that snapshot;
+        # without an initial forest there is nothing to restore and the history is pruned)
+        {"op": "restore", "via": "load"},
+    ]
+
+
 NAMES = ["world", "a", "b", "c", "d", "e"]
 GEOMS = ["g1", "g2", "g3"]
 
@@ -1158,7 +1292,26 @@ def random_history(rng, pyrng, n):
     ops = []
     for _ in range(n):
         r = pyrng.random()
-        if r < 0.42:
+        if r < 0.07:
+            r2 = pyrng.random()
+            if r2 < 0.15:
+                ops.append({"op": "snapshot"})
+            elif r2 < 0.6:
+                # save the state somewhere earlier in the history, put it back now
+                ops.insert(pyrng.randrange(len(ops) + 1), {"op": "snapshot"})
+                ops.append({"op": "restore", "via": pyrng.choice(["load", "from_edgelist"])})
+            else:
+                edges, classes = [], []
+                for _e in range(pyrng.choice([1, 1, 2, 3, 4])):
+                    v = pyrng.choice(NAMES[1:])
+                    u = pyrng.choice([x for x in NAMES if x != v])
+                    cls, kw = random_kwargs(rng)
+                    edges.append(_edge(u, v, kwargs_matrix(kw), pyrng.choice([None, None] + GEOMS)))
+                    classes.append(cls)
+                ops.append({"op": "load", "via": pyrng.choice(["load", "from_edgelist"]),
+                            "arrays": pyrng.random() < 0.5, "tuples": pyrng.random() < 0.3,
+                            "edges": edges, "cls": tuple(classes)})
+        elif r < 0.42:
             to = pyrng.choice(NAMES[1:] if pyrng.random() < 0.9 else NAMES)
             frm = pyrng.choice([None, None] + NAMES)
             cls, kw = random_kwargs(rng)
@@ -1209,6 +1362,8 @@ def record(run, tag, ops, res, prefix=None):
         run.count("histories_reparenting_onto_a_former_edge")
     if st.ghost:
         run.count("histories_with_absent_frame_query")
+    if any(o["op"] in ("load", "restore") for o in ops):
+        run.count("histories_loading_an_edge_list")
 
 
 def workload(run):
@@ -1234,6 +1389,27 @@ def _workload(run):
     run.note("alphabet", [str(op_digest(o)) for o in A])
     idx = 0
     done_enum = True
+    # edge lists loaded into an existing, already queried graph (cheap: runs first so that a slow
+    # machine cannot squeeze it out)
+    L = load_alphabet()
+    run.note("load_alphabet", [str(op_digest(o)) for o in L])
+    for prefix in (None, ("chain", True), ("tree", True), ("chain", False)):
+        for n in ((1, 2, 3) if prefix is None else (1, 2)):
+            for combo in itertools.product(range(len(L)), repeat=n):
+                idx += 1
+                if not run.mine(idx):
+                    continue
+                if run.out_of_time(0.5):
+                    done_enum = False
+                    break
+                ops = [L[i] for i in combo]
+                res = run_history(run, ops, idx, False, "enum", prefix=prefix)
+                if res is None:
+                    run.count("enumerated_histories_pruned_not_applicable")
+                    continue
+                tag = "len%d" % n if prefix is None else "%s_%s+len%d" % (prefix[0], "warm" if prefix[1] else "cold", n)
+                record(run, "enum_load:" + tag, ops, res, prefix)
+    run.note("load_enumeration_seconds", round(run.elapsed(), 1))
     # the enumeration is the seed-independent core: it may use nearly the whole budget on a slow
     # machine (the sampled histories then get what is left); not finishing it is inconclusive
     frac = 0.93 if run.tier == "quick" else 0.5
